@@ -120,6 +120,10 @@ class Shim(object):
         # directories (on different virtual volumes) whose inode NUMBERS
         # coincide, as happens on freshly made file systems
         self.same_ino = set(plan.get('same_ino') or ())
+        # opt-in: st_dev of everything under a virtual mount differs from the
+        # root's (code that compares device numbers sees several devices)
+        self.vdev = bool(plan.get('vdev'))
+        self.devfds = set()
         if plan.get('listdir_seed') is not None:
             import random
             self.listdir_rng = random.Random(plan['listdir_seed'])
@@ -391,6 +395,8 @@ class Shim(object):
     def _post(self, name, r, a, kw, paths, cls):
         if name == 'open' and isinstance(r, int):
             self.fds[r] = (paths[0], cls == 'M')
+            if self.vdev and kw.get('dir_fd') is None:
+                self.devfds.add(r)
         elif name == 'bopen':
             try:
                 self.fds[r.fileno()] = (paths[0], cls == 'M')
@@ -398,6 +404,12 @@ class Shim(object):
                 pass
         elif name == 'close':
             self.fds.pop(a[0] if a else None, None)
+            self.devfds.discard(a[0] if a else None)
+        elif name in ('stat', 'lstat') and self.vdev and paths and paths[0] \
+                and kw.get('dir_fd') is None and \
+                not isinstance(a[0] if a else kw.get('path'), int):
+            follow = name == 'stat' and kw.get('follow_symlinks', True)
+            r = self._fake_dev(r, paths[0], follow)
         elif name in ('stat', 'lstat') and self.same_ino and paths and \
                 paths[0] in self.same_ino:
             try:
@@ -412,6 +424,32 @@ class Shim(object):
                 and paths and paths[0] and self._under(paths[0], self.root):
             r = list(r)
             self.listdir_rng.shuffle(r)
+        return r
+
+    def _fake_dev(self, r, path, follow):
+        try:
+            was = self.inside
+            self.inside = True
+            try:
+                rp = posixpath.realpath(path) if follow else self._real_parent(path)
+            finally:
+                self.inside = was
+            if not self._under(rp, self.root):
+                return r
+            vol = self.volume_of(rp)
+            if vol == self.root or vol not in self.mounts:
+                return r
+            c_, (t_, d_) = r.__reduce__()
+            t_ = list(t_)
+            t_[2] = t_[2] + 7000 + sorted(self.mounts).index(vol)
+            return c_(tuple(t_), dict(d_))
+        except Exception:
+            return r
+
+    def fstat(self, fd, *a, **kw):
+        r = _O['fstat'](fd, *a, **kw)
+        if fd in self.devfds and fd in self.fds and self.fds[fd][0]:
+            r = self._fake_dev(r, self.fds[fd][0], True)
         return r
 
     def _pfault(self, name, cls, kind, paths, a, kw):
@@ -686,6 +724,9 @@ def install(root, mounts, uid, plan, logfd):
 
     if not plan.get('real_mounts'):
         posixpath.ismount = sh.ismount
+        if plan.get('vdev'):
+            _O['fstat'] = os.fstat
+            os.fstat = sh.fstat
     if uid is not None:
         os.getuid = lambda: uid
         euid = plan.get('euid')
